@@ -23,7 +23,7 @@ pub struct IpcReceiver<T> { pub os_receiver: OsIpcReceiver, pub phantom: Phantom
 pub struct IpcSender<T> { pub os_sender: OsIpcSender, pub phantom: PhantomData<T> }
 pub struct OpaqueIpcMessage {
     pub data: Vec<u8>,
-    pub os_ipc_channels: Vec<OsOpaqueIpcChannel>,
+    pub os_ipc_channels: Vec<Option<OsOpaqueIpcChannel>>,
     pub os_ipc_shared_memory_regions: Vec<Option<OsIpcSharedMemory>>,
 }
 
@@ -40,7 +40,7 @@ pub struct O {
 }
 pub open spec fn same_oneshot(o0: O, o1: O) -> bool { o1.created == o0.created && o1.accepted == o0.accepted && o1.connected == o0.connected }
 // the message a decoded value was decoded from
-pub uninterp spec fn value_src<T>(v: T) -> (Seq<u8>, Seq<OsOpaqueIpcChannel>, Seq<Option<OsIpcSharedMemory>>);
+pub uninterp spec fn value_src<T>(v: T) -> (Seq<u8>, Seq<Option<OsOpaqueIpcChannel>>, Seq<Option<OsIpcSharedMemory>>);
 
 impl OsIpcOneShotServer {
     #[verifier::external_body]
